@@ -61,6 +61,7 @@ type RunConfig struct {
 	Oracles     []string       `json:"oracles,omitempty"`      // property ids whose oracles are on
 	FinalStop   bool           `json:"final_stop"`             // the action list ends with an explicit stop
 	PSFirst     int            `json:"ps_first_pct,omitempty"` // when both netlink clients wait: chance (percent) that the periodic one is served first (0 = 50)
+	CoLoc       bool           `json:"coloc,omitempty"`     // SMF 1 sends from SMF 0's IP address, another port
 	FQDNMask    int            `json:"fqdn_mask,omitempty"`    // bit i: SMF i's Node ID is an FQDN, resolved through the simulator
 	NoPeek      bool           `json:"no_peek,omitempty"`      // never read go-upf's internal state (race-detector runs)
 }
@@ -227,6 +228,12 @@ func (s *Sim) alias(p string) string {
 		if p == "C09" || (p == "C10" && s.cfg.KernLatency == 0) {
 			return "C17"
 		}
+	case "C03":
+		// "registered for periodic querying with its measurement period" is observable
+		// as the set of URRs each tick queries
+		if p == "C15" {
+			return "C03"
+		}
 	case "C05":
 		if p == "C13" {
 			return "C05" // packets of one session showing up in another
@@ -290,10 +297,10 @@ func (s *Sim) perm(site int, n int) []int {
 	if s.cfg.MapOrder != "seeded" {
 		return p
 	}
-	s.emu.Lock()
-	c := s.permCnt[site]
-	s.permCnt[site] = c + 1
-	s.emu.Unlock()
+	// A pure function of (seed, site, simulated instant, size): no shared counter, no
+	// lock. The seams are called from go-upf's own goroutines; a mutex here would order
+	// those goroutines with one another and hide data races from the race detector.
+	c := uint64(s.since())<<8 ^ uint64(n)
 	for i := n - 1; i > 0; i-- {
 		j := int(s.hash("perm", uint64(site), c, uint64(i)) % uint64(i+1))
 		p[i], p[j] = p[j], p[i]
@@ -303,11 +310,7 @@ func (s *Sim) perm(site int, n int) []int {
 
 // choose: which of several READY cases of a receive-only select runs (rule R7).
 func (s *Sim) choose(site int, ready []int) int {
-	s.emu.Lock()
-	c := s.permCnt[-site]
-	s.permCnt[-site] = c + 1
-	s.probeM["select.both-ready"]++
-	s.emu.Unlock()
+	c := uint64(s.since())<<8 ^ uint64(len(ready))<<4 ^ uint64(ready[0])
 	return ready[int(s.hash("select", uint64(site), c)%uint64(len(ready)))]
 }
 
